@@ -414,6 +414,70 @@ def apply(P_, v):
     return [signs[i] * v[perm[i]] for i in range(3)]
 
 
+REPLAY_EQ = r"""
+import math, sys, logging, random
+logging.disable(logging.CRITICAL)
+from propka.atom import Atom
+from propka.protonate import Protonate
+class Conf:
+    def __init__(self): self.atoms = []
+    def add_atom(self, a): self.atoms.append(a)
+def mk(el, p, name):
+    a = Atom(); a.element = el; a.name = name; a.res_name = 'HIS'; a.chain_id = 'A'; a.res_num = 5; a.type = 'atom'
+    a.x, a.y, a.z = p; a.bonded_atoms = []
+    return a
+def place(pts):
+    at = mk('N', pts[0], 'NE2'); at.conformation_container = Conf()
+    at.bonded_atoms = [mk('C', q, 'C%%d' %% i) for i, q in enumerate(pts[1:])]
+    for b in at.bonded_atoms: b.bonded_atoms = [at]
+    at.number_of_protons_to_add = 1; at.steric_number = 3
+    Protonate().trigonal(at)
+    h = [a for a in at.bonded_atoms if a.element == 'H'][0]
+    return [h.x, h.y, h.z]
+Ps = %(Ps)r
+def app(P, v): return [P[1][i] * v[P[0][i]] for i in range(3)]
+rnd = random.Random(4)
+bad = 0
+# the solver's model first (if any), then two-neighbour geometries over the whole range of angles (1 .. 179.9 degrees)
+cands = %(model)r
+for ang in [1, 20, 60, 90, 109.5, 120, 150, 170, 174, 175, 176, 178, 179, 179.9]:
+    for rep in range(3):
+        ph, l1, l2 = rnd.uniform(0, 6.28), rnd.uniform(1.2, 1.6), rnd.uniform(1.2, 1.6)
+        c = [rnd.uniform(-20, 20) for _ in range(3)]
+        a = math.radians(ang)
+        # a generic (not axis-aligned) plane
+        e1 = [math.cos(ph), math.sin(ph) * 0.6, math.sin(ph) * 0.8]
+        e2 = [-math.sin(ph), math.cos(ph) * 0.6, math.cos(ph) * 0.8]
+        cands.append([c, [c[i] + l1 * e1[i] for i in range(3)],
+                      [c[i] + l2 * (math.cos(a) * e1[i] + math.sin(a) * e2[i]) for i in range(3)]])
+for pts in cands:
+    try:
+        h1 = place(pts)
+    except ZeroDivisionError:
+        continue
+    for P in Ps:
+        t = [3.0, -7.0, 11.0]
+        moved = [[app(P, q)[i] + t[i] for i in range(3)] for q in pts]
+        h2 = place(moved)
+        want = [app(P, h1)[i] + t[i] for i in range(3)]
+        if max(abs(x - y) for x, y in zip(h2, want)) > 5e-3:
+            print('VIOLATION: hydrogen of the moved structure at %%r, moved hydrogen at %%r (motion %%r, atoms %%r)' %% (h2, want, P, pts))
+            bad += 1
+            break
+print('violations:', bad)
+sys.exit(1 if bad else 0)
+"""
+
+
+def eq_replay(model):
+    pts = []
+    try:
+        pts = [[[mval(model, 'p%d%s' % (i, c), 0.0) for c in 'xyz'] for i in range(3)]]
+    except Exception:
+        pts = []
+    return REPLAY_EQ % {'Ps': perms24(), 'model': pts}
+
+
 def task_equivariance(pr, repo):
     ex = Executor(repo)
     ex.contracts['propka.vector_algebra.Vector.rescale'] = rescale_contract(repo)
@@ -451,6 +515,12 @@ def task_equivariance(pr, repo):
                     x=coords[0][0], y=coords[0][1], z=coords[0][2])
         pos = {}
         ex.contracts[P + '.add_proton'] = lambda ex, ctx_, fi, a_, k, so: pos.setdefault('p', a_[1])
+
+        def orth(ex, ctx_, fi, a_, k, so):
+            # contract ORT only: some non-zero perpendicular vector - NOT a function that commutes with rotations
+            ctx_.orth_calls = getattr(ctx_, 'orth_calls', 0) + 1
+            return xyz('orth%d' % ctx_.orth_calls, repo.cls('propka.vector_algebra.Vector'))
+        ex.contracts['propka.vector_algebra.Vector.orthogonal'] = orth
         ex.call_function(repo.func(P + '.trigonal'), [at], self_obj=protonator(ex, repo))
         p = pos['p']
         return [p.attrs[c] for c in 'xyz']
@@ -470,6 +540,11 @@ def task_equivariance(pr, repo):
                 if e.exc_name == 'ZeroDivisionError':
                     raise Infeasible()
                 raise
+            if getattr(ctx, 'orth_calls', 0):
+                ctx.oblige('EQ[2-bond trigonal]: the placement with two bonded neighbours is built from the two bond vectors alone - it never '
+                           'takes its direction from Vector.orthogonal(), whose contract (ORT) promises a perpendicular vector, not one that '
+                           'turns with the structure', False, meta={'replay': eq_replay})
+                return
             rs = getattr(ctx, 'rescales', [])
             if len(rs) != 6:
                 ctx.oblige('EQ: each placement uses two unit bond vectors and one rescaling', False)
